@@ -422,7 +422,9 @@ func fixedCases() {
 
 func generated(r *hx.Rng, i int) {
 	exact := r.Chance(2, 3)
-	switch i % 12 {
+	switch i % 13 {
+	case 12: // operands next to a neutral element / of a special structure (neutral.go)
+		structuredGenerated(r)
 	case 0: // Add / Multiply
 		if exact {
 			if r.Bool() {
